@@ -14,7 +14,7 @@ pub fn def() -> PropDef {
     }
 }
 
-const SEQS: &[&str] = &["\x1b[1m", "\x1b]8;;u\x1b\\", "\x1b]8;;1-2\x1b\\", "\x1b[3~"];
+const SEQS: &[&str] = &["\x1b[1m", "\x1b]8;;u\x1b\\", "\x1b]8;;1-2-3\x1b\\", "\x1b[3~"];
 
 fn gamma() -> Gamma {
     Gamma { seps: seps(), algs: algs_default(), spls: vec![Spl::None, Spl::Hyphen], bws: vec![true, false], indents: vec![("", "")], crlf: vec![false] }
